@@ -16,6 +16,7 @@ DRIVERS: dict[str, list[list[str]]] = {
     "C03": [["drivers/endpoints.py", "--max-len", "5", "--faults"], ["drivers/endpoints.py", "--max-len", "4", "--asynchronous"]],
     "C10": [["drivers/endpoints.py", "--max-len", "4", "--asynchronous"], ["drivers/endpoints.py", "--max-len", "5", "--faults"]],
     "C04": [["drivers/sendpaths.py"]],
+    "C11": [["drivers/budget.py"]],
     "C06": [["drivers/streams.py", "--max-len", "5"], ["drivers/streams.py", "--mode", "directed"]],
     "C07": [["drivers/streams.py", "--mode", "bound"], ["drivers/streams.py", "--mode", "directed"], ["drivers/streams.py", "--max-len", "5"]],
 }
